@@ -1,4 +1,12 @@
+from .. import common as C
+
+
+def gen_sites():
+    C.gen_sites("C04", ["core/internal/protocol/proxy.go"], only=r":(ReadTCP|WriteTCP|varintPut)")
+
+
 CFG = {
+    "gen_hooks": [gen_sites],
     "props_module": "Hy.Props.C04",
     "gen_modules": ["core"],
     "level": "proof",
